@@ -19,6 +19,7 @@ type funcReport struct {
 	Session  *Session
 	Obls     []*Obligation
 	SpecDefs string
+	Dep      bool // verified because a function of the property relies on its contract
 }
 
 func main() {
